@@ -18,6 +18,9 @@ CHECKS = {
  "C02": ("model-based stateful PBT (proptest) with explicit authorization entries (no mock_all_auths)",
          "Generated histories of approve/transfer/transfer_from/burn/burn_from/mint/ledger-advance over nine fungible-token contracts, every call carrying an explicit authorization set in one of the modes Exact/Drop/Swap/Tamper/Surplus; safety oracle from the statement: a balance decreases only with the holder's exact entry or a spender's entry plus a live sufficient allowance that then drops by exactly the amount; allowances never exceed approved-minus-spent, are zero after live_until (also past the entry's storage TTL) and change only by the owner's approve or by being spent.",
          "DESIGN.md §4 C02"),
+ "C16": ("model-based stateful PBT (proptest): gate matrix over entry points x party roles, cap boundary amounts, upgrade/migrate flag histories",
+         "Generated histories interleaving allow/disallow, block/unblock, pause/unpause with every token entry point (transfer, transfer_from, approve, burn, burn_from, mint) under explicit authorization on two harness list tokens and the allowlist/blocklist/pausable/capped/pausable-counter examples: a call that succeeds never has a closed documented gate, a refused call changes nothing, list changes are immediate and idempotent, pause/unpause strictly alternate and need the owner, with all gates open and preconditions met the call works; cap: no successful mint lifts the supply above generated caps (boundary amounts cap-supply+-1, overflow); migration: on the derive-generated upgrade/migrate of the current tree (native code re-installed after upgrade) migrate completes exactly once per upgrade, never without one, only for the owner.",
+         "DESIGN.md §4 C16"),
 }
 
 PENDING_REASON = "check not yet implemented in this commit (work in progress; design in DESIGN.md §4) — will be claimed once its harness lands"
